@@ -34,7 +34,7 @@ fn main() {
         }
     }
     if id == "GENCORPUS" {
-        let dir = args.get(2).cloned().unwrap_or_else(|| "/verif/corpus".to_string());
+        let dir = args.get(2).cloned().unwrap_or_else(|| format!("{}/corpus", vlib::util::root()));
         match vlib::fuzzing::gen_corpus(&dir) {
             Ok(n) => {
                 println!("{n} corpus files written under {dir}");
@@ -137,7 +137,7 @@ fn main() {
     let wall = t0.elapsed().as_secs_f64();
     let mut viol = Vec::new();
     let mut harness_err = rep.inconclusive.clone();
-    std::fs::create_dir_all("/verif/replays").ok();
+    std::fs::create_dir_all(format!("{}/replays", vlib::util::root())).ok();
     for f in &rep.failures {
         if f.what.starts_with("HARNESS:") {
             harness_err = Some(f.what.clone());
@@ -145,7 +145,7 @@ fn main() {
         }
         let body = json!({"property": id, "flavour": FLAVOUR, "stage": f.stage, "what": f.what, "case": f.case, "seed": seed});
         let h = vlib::util::hash64(serde_json::to_string(&body).unwrap().as_bytes());
-        let path = format!("/verif/replays/{id}-{FLAVOUR}-{h:016x}.json");
+        let path = format!("{}/replays/{id}-{FLAVOUR}-{h:016x}.json", vlib::util::root());
         std::fs::write(&path, serde_json::to_string_pretty(&body).unwrap()).expect("write replay");
         println!("DETAIL property={id} flavour={FLAVOUR} stage={} what={}", f.stage, f.what);
         println!("VIOLATION property={id} replay={path}");
